@@ -598,8 +598,11 @@ func (g *pz) translatedCall(sc *pzScope, key, recv string, args []ast.Expr) (str
 	return "(← " + strings.Join(parts, " ") + ")", pzResultType(ts)
 }
 
-/* the callee reads a field of its receiver before it does anything else: calling it through a nil
-   pointer panics, as `Go.deref` at the call site does */
+/*
+the callee reads a field of its receiver before it does anything else: calling it through a nil
+
+	pointer panics, as `Go.deref` at the call site does
+*/
 func pzReadsReceiverFirst(fd *ast.FuncDecl) bool {
 	if fd.Recv == nil || len(fd.Recv.List[0].Names) != 1 {
 		return false
